@@ -116,4 +116,7 @@ func init() {
 	if len(os.Args) > 1 && os.Args[1] == "racepass" {
 		os.Exit(racePass())
 	}
+	if len(os.Args) > 1 && os.Args[1] == "poolrace" {
+		os.Exit(poolRacePass())
+	}
 }
